@@ -52,10 +52,11 @@ def gen_data(kind, seed, size):
 
 
 class Config:
-    def __init__(self, name, mode, opts, data_spec, env=None, short=None):
+    def __init__(self, name, mode, opts, data_spec, env=None, short=None, light=False):
         self.name, self.mode, self.opts, self.data_spec = name, mode, opts, data_spec
         self.env = dict(env or {})
         self.short = short
+        self.light = light      # quick tier: fewer positions, no SIG_IGN variants
         self._data = None
 
     @property
@@ -66,11 +67,11 @@ class Config:
 
     def as_dict(self):
         return {"name": self.name, "mode": self.mode, "opts": self.opts, "data_spec": list(self.data_spec),
-                "env": self.env, "short": self.short}
+                "env": self.env, "short": self.short, "light": self.light}
 
     @staticmethod
     def from_dict(d):
-        return Config(d["name"], d["mode"], d["opts"], tuple(d["data_spec"]), d.get("env"), d.get("short"))
+        return Config(d["name"], d["mode"], d["opts"], tuple(d["data_spec"]), d.get("env"), d.get("short"), d.get("light", False))
 
 
 def stderr_expect(pname, call, eno):
@@ -112,21 +113,22 @@ class Check(PropertyCheck):
         cs = []
         ns = (1, 2, 4) if self.tier == "quick" else (1, 2, 3, 4, 8)
         for n in ns:
-            cs.append(Config("c-small-n%d" % n, "compress", ["-1", "-n", str(n)], small))
-            cs.append(Config("c-multi-n%d" % n, "compress", ["-1", "-n", str(n)], multi))
-            cs.append(Config("d-small-n%d" % n, "decompress", ["-d", "-n", str(n)], ("bz2text", s * 7 + 3, 3000)))
+            lt = n != 2
+            cs.append(Config("c-small-n%d" % n, "compress", ["-1", "-n", str(n)], small, light=lt))
+            cs.append(Config("c-multi-n%d" % n, "compress", ["-1", "-n", str(n)], multi, light=lt))
+            cs.append(Config("d-small-n%d" % n, "decompress", ["-d", "-n", str(n)], ("bz2text", s * 7 + 3, 3000), light=lt))
             cs.append(Config("d-multi-n%d" % n, "decompress", ["-d", "-n", str(n)], ("bz2text", s * 7 + 4, 250000),
-                             env={"LBZIP2_VERIF_IN_GRANUL": "4096", "LBZIP2_VERIF_OUT_GRANUL": "32768"}))
-            cs.append(Config("copy-n%d" % n, "copy", ["-cdf", "-n", str(n)], ("text", s * 7 + 5, 200000)))
+                             env={"LBZIP2_VERIF_IN_GRANUL": "4096", "LBZIP2_VERIF_OUT_GRANUL": "32768"}, light=lt))
+            cs.append(Config("copy-n%d" % n, "copy", ["-cdf", "-n", str(n)], ("text", s * 7 + 5, 200000), light=lt))
         cs.append(Config("copy-tiny", "copy", ["-cdf"], ("text", s * 7 + 6, 3)))
         cs.append(Config("copy-10", "copy", ["-cdf"], ("text", s * 7 + 6, 10)))
         cs.append(Config("c-empty", "compress", ["-1", "-n", "2"], ("text", 1, 0)))
         cs.append(Config("c-short", "compress", ["-1", "-n", "2"], small, short=700))
-        cs.append(Config("d-short", "decompress", ["-d", "-n", "2"], ("bz2text", s * 7 + 3, 3000), short=1))
+        cs.append(Config("d-short", "decompress", ["-d", "-n", "2"], ("bz2text", s * 7 + 3, 400), short=1))
         cs.append(Config("copy-short", "copy", ["-cdf", "-n", "2"], ("text", s * 7 + 7, 5000), short=1500))
-        cs.append(Config("c-sched", "compress", ["-1", "-n", "4"], multi, env={"LBZIP2_VERIF_SCHED": str(1 + self.rng.below(1000))}))
+        cs.append(Config("c-sched", "compress", ["-1", "-n", "4"], multi, env={"LBZIP2_VERIF_SCHED": str(1 + self.rng.below(1000))}, light=True))
         cs.append(Config("d-sched", "decompress", ["-d", "-n", "4"], ("bz2text", s * 7 + 4, 250000),
-                         env={"LBZIP2_VERIF_SCHED": str(1 + self.rng.below(1000)), "LBZIP2_VERIF_IN_GRANUL": "16384"}))
+                         env={"LBZIP2_VERIF_SCHED": str(1 + self.rng.below(1000)), "LBZIP2_VERIF_IN_GRANUL": "16384"}, light=True))
         if self.tier != "quick":
             cs.append(Config("c-9", "compress", ["-9", "-n", "3"], ("text", s * 7 + 8, 1200000)))
             cs.append(Config("c-u", "compress", ["-1", "-u", "-n", "3"], multi))
@@ -247,15 +249,18 @@ class Check(PropertyCheck):
                 continue
             for call, lst in (("read", reads), ("write", writes)):
                 ks = list(range(1, len(lst) + 1))
-                limit = None if (full or len(ks) <= 12) else 8
+                light = c.light and not full
+                limit = None if (full or (len(ks) <= 12 and not light) or len(ks) <= 4) else (1 if light else 4)
                 if limit:
-                    keep = {1, 2, len(ks) - 1, len(ks)}
+                    keep = {1, 2, len(ks)} if light else {1, 2, len(ks) - 1, len(ks)}
                     pool = [k for k in ks if k not in keep]
                     keep |= set(self.rng.shuffle(pool)[:limit])
                     ks = sorted(keep)
                 for k in ks:
                     role = self.role_of(c, call, k, reads, writes)
                     for en, sg, disp in VARIANTS:
+                        if disp == "ignore" and not full and (light or (len(lst) > 4 and k % 3 != 1)):
+                            continue    # inherited SIG_IGN: a third of the positions in the quick tier
                         plans.append((c, {"kind": "inject", "call": call, "nth": k, "errno": ERRNOS[en], "ename": en,
                                           "sig": sg, "disp": disp, "role": role,
                                           "prefix": sum(w["ret"] for w in writes[:k - 1]) if call == "write" else None}))
